@@ -232,7 +232,7 @@ func (c *Conv) setPaddingWithAutoPad(x tensor.Tensor) {
 	c.pads = make([]int, nSpatialDims*NPadsPerDim)
 
 	for i := 0; i < nSpatialDims; i++ {
-		dim := inputShape[i]
+		dim := inputShape[nNonSpatialDims+i]
 		targetSize := (dim + c.strides[i] - 1) / c.strides[i]
 		padNeeded := (targetSize-1)*c.strides[i] + c.kernelShape[i] - dim
 
